@@ -1,7 +1,981 @@
-//! C10 engine (stub)
+//! C10: one message under short writes, EAGAIN, errors and suspend/resume on a REAL socket.
+//!
+//! A real `DuplexConn` (through the real auth code) is connected to an in-process peer. The client's
+//! SO_SNDBUF is set small (the kernel then takes `sndbuf/2 - 64` bytes per skb, two of them while the
+//! queue is empty), optionally the queue is pre-filled with filler bytes standing for earlier unread
+//! traffic, so that `write_once(Timeout::Nonblock)` really returns short counts and EAGAIN. Client
+//! and peer run in lock-step on one thread: client call -> observe -> the peer reads a chosen amount.
+//! The OBSERVED results (n per call, EAGAIN, error) are the model's input events; compared with the
+//! model are: what the kernel holds after every call (bytes read by the peer + FIONREAD, i.e. NOT
+//! the value the library returned), `all_bytes_written()`, the descriptor deliveries seen by the peer,
+//! a hash of the byte stream the peer read, the reported serial, whether the final consumption of
+//! the context panicked. Direct checks (no model): see `finish_checks`.
+use rustbus::connection::ll_conn::{force_finish_on_error, DuplexConn, SendMessageContext};
+use rustbus::connection::{Error, Timeout};
+use rustbus::message_builder::{MarshalledMessage, MessageBuilder};
+use rustbus::wire::UnixFd;
+use rustbus::ByteOrder;
+use std::num::NonZeroU32;
+use std::os::unix::io::{AsRawFd, RawFd};
+use std::os::unix::net::UnixStream;
+use std::time::Duration;
 use vcore::common::*;
+use vcore::eng_wire::guard;
+use vcore::peer;
+
+fn sockopt_set(fd: RawFd, opt: libc::c_int, v: i32) {
+    unsafe {
+        libc::setsockopt(fd, libc::SOL_SOCKET, opt, &v as *const i32 as *const libc::c_void, 4);
+    }
+}
+
+fn fionread(fd: RawFd) -> usize {
+    let mut n: libc::c_int = 0;
+    unsafe {
+        libc::ioctl(fd, libc::FIONREAD, &mut n);
+    }
+    n as usize
+}
+
+fn ident(fd: RawFd) -> (u64, u64) {
+    unsafe {
+        let mut st: libc::stat = std::mem::zeroed();
+        if libc::fstat(fd, &mut st) != 0 {
+            return (0, 0);
+        }
+        (st.st_dev as u64, st.st_ino as u64)
+    }
+}
+
+/// anonymous files whose (dev, inode) identify a descriptor at the peer
+fn make_files(n: usize) -> Vec<(RawFd, (u64, u64))> {
+    (0..n)
+        .map(|i| {
+            let name = std::ffi::CString::new(format!("vh-c10-{}", i)).unwrap();
+            let fd = unsafe { libc::memfd_create(name.as_ptr(), 0) };
+            assert!(fd >= 0, "memfd_create");
+            (fd, ident(fd))
+        })
+        .collect()
+}
+
+fn pattern(seed: u8, n: usize) -> Vec<u8> {
+    (0..n).map(|i| (seed as usize + i + (i >> 8) * 3) as u8).collect()
+}
+
+fn fnv32(bs: &[u8]) -> u32 {
+    let mut h: u32 = 2166136261;
+    for b in bs {
+        h = (h ^ (*b as u32)).wrapping_mul(16777619);
+    }
+    h
+}
+
+fn rd_u32(bo_l: bool, b: &[u8]) -> u32 {
+    let a = [b[0], b[1], b[2], b[3]];
+    if bo_l {
+        u32::from_le_bytes(a)
+    } else {
+        u32::from_be_bytes(a)
+    }
+}
+
+struct Built {
+    msg: MarshalledMessage,
+    fdids: Vec<usize>,
+    pre: Vec<u8>,
+    patlen: usize,
+    seed: u8,
+    post: Vec<u8>,
+}
+
+fn header_len(msg: &MarshalledMessage) -> usize {
+    let mut b = Vec::new();
+    rustbus::wire::marshal::marshal(msg, NonZeroU32::new(1).unwrap(), &mut b).expect("marshal");
+    b.len()
+}
+
+/// a message with a chosen header length (None: whatever the names give), `patlen` counter bytes in
+/// an `ay`, descriptors before or after it
+fn build(rng: &mut Prng, files: &[(RawFd, (u64, u64))], hdr_target: Option<usize>, patlen: usize, nfds: usize, with_array: bool) -> Built {
+    let bo = if rng.chance(1, 2) { ByteOrder::LittleEndian } else { ByteOrder::BigEndian };
+    let stretch = |rng: &mut Prng, base: &str, max: u64| -> String {
+        let mut s = base.to_string();
+        for _ in 0..rng.below(max) {
+            s.push('x');
+        }
+        s
+    };
+    let iface = stretch(rng, "a.b", 40);
+    let member = stretch(rng, "M", 40);
+    let mut msg = if rng.chance(1, 2) {
+        MessageBuilder::with_byteorder(bo).signal(iface, member, "/o").build()
+    } else {
+        let mut c = MessageBuilder::with_byteorder(bo).call(member).on("/o").at(stretch(rng, "org.dest", 30));
+        if rng.chance(1, 2) {
+            c = c.with_interface(iface);
+        }
+        c.build()
+    };
+    if rng.chance(1, 3) {
+        msg.dynheader.sender = Some(stretch(rng, ":1.7", 10));
+    }
+    if rng.chance(1, 4) {
+        msg.flags = rng.next() as u8;
+    }
+    // body
+    let seed = rng.next() as u8;
+    let pat = pattern(seed, patlen);
+    let fds_first = rng.chance(1, 2);
+    let mut fdids = Vec::new();
+    let push_fds = |msg: &mut MarshalledMessage, rng: &mut Prng, fdids: &mut Vec<usize>| {
+        for _ in 0..nfds {
+            let id = rng.below(files.len() as u64) as usize;
+            let ufd = UnixFd::new(nix::unistd::dup(files[id].0).unwrap());
+            msg.body.push_param(&ufd).unwrap();
+            fdids.push(id);
+        }
+    };
+    if fds_first {
+        push_fds(&mut msg, rng, &mut fdids);
+    }
+    if with_array {
+        msg.body.push_param(&pat[..]).unwrap();
+    }
+    if !fds_first {
+        push_fds(&mut msg, rng, &mut fdids);
+    }
+    // header length: stretch the object path
+    if let Some(target) = hdr_target {
+        let mut k: i64 = 1;
+        for _ in 0..12 {
+            msg.dynheader.object = Some(format!("/{}", "p".repeat(k.max(1) as usize)));
+            let l = header_len(&msg) as i64;
+            if l == target as i64 {
+                break;
+            }
+            // the length moves by one per character up to the padding: aim at the top of the 8-byte step
+            k = (k + (target as i64 - l)).max(1);
+        }
+    }
+    // locate the pattern in the body
+    let body = msg.get_buf().to_vec();
+    let (pre, patlen2, post) = if with_array && patlen > 0 {
+        let off = if fds_first { 4 * nfds + 4 } else { 4 };
+        if body.len() >= off + patlen && body[off..off + patlen] == pat[..] {
+            (body[..off].to_vec(), patlen, body[off + patlen..].to_vec())
+        } else {
+            (body.clone(), 0, vec![])
+        }
+    } else {
+        (body.clone(), 0, vec![])
+    };
+    Built { msg, fdids, pre, patlen: patlen2, seed, post }
+}
+
+/// the peer end: counts the stream position, keeps the bytes of the current message
+struct PeerEnd {
+    s: UnixStream,
+    rx_total: usize,
+    base: usize,
+    got: Vec<u8>,
+    deliveries: Vec<(usize, Vec<(u64, u64)>)>,
+}
+
+impl PeerEnd {
+    fn pending(&self) -> usize {
+        fionread(self.s.as_raw_fd())
+    }
+    /// what the kernel has accepted for the current message
+    fn kernel_sent(&self) -> usize {
+        (self.rx_total + self.pending()).saturating_sub(self.base)
+    }
+    fn read(&mut self, want: usize) {
+        if want == 0 {
+            return;
+        }
+        // never read across the start of the current message in one call (descriptor position)
+        let want = if self.rx_total < self.base { want.min(self.base - self.rx_total) } else { want };
+        let (bytes, fds) = peer::recv_with_fds(&self.s, want);
+        let pos = self.rx_total;
+        if !fds.is_empty() {
+            let ids = fds.iter().map(|f| ident(*f)).collect();
+            for f in &fds {
+                unsafe {
+                    libc::close(*f);
+                }
+            }
+            self.deliveries.push((pos.saturating_sub(self.base), ids));
+        }
+        if pos >= self.base {
+            self.got.extend_from_slice(&bytes);
+        }
+        self.rx_total += bytes.len();
+    }
+    fn drain_all(&mut self) {
+        let mut guard = 0;
+        while self.pending() > 0 && guard < 100000 {
+            self.read(1 << 20);
+            guard += 1;
+        }
+    }
+}
+
+#[derive(Clone, Copy, PartialEq)]
+enum EndKind {
+    Drop,
+    Forget,
+    Progress,
+    Ffe,
+}
+
+struct Spec {
+    sndbuf: i32,
+    filler: usize,
+    hdr_target: Option<usize>,
+    patlen: usize,
+    nfds: usize,
+    with_array: bool,
+    suspend_num: u64, // suspend before a call with probability suspend_num/4
+    fail_den: u64,    // 0: never inject the failing Timeout::Duration(0)
+    abandon_after: Option<usize>,
+    use_write: u64, // probability (x/8) that a step is a `write(Nonblock)` instead of `write_once`
+    preset: Option<u32>,
+    class: &'static str,
+}
+
+fn res_of(r: &Result<usize, Error>) -> String {
+    match r {
+        Ok(n) => format!("k{}", n),
+        Err(Error::IoError(e)) if e.kind() == std::io::ErrorKind::WouldBlock => "e".into(),
+        Err(Error::TimedOut) => "t".into(),
+        Err(_) => "f".into(),
+    }
+}
+
+fn scenario(out: &mut Out, rng: &mut Prng, conn: &mut DuplexConn, pe: &mut PeerEnd, files: &[(RawFd, (u64, u64))], sp: &Spec) {
+    let cfd = conn.send.as_raw_fd();
+    sockopt_set(cfd, libc::SO_SNDBUF, sp.sndbuf);
+    let b = build(rng, files, sp.hdr_target, sp.patlen, sp.nfds, sp.with_array);
+    let mut msg = b.msg;
+    msg.dynheader.serial = sp.preset.and_then(NonZeroU32::new);
+    let body: Vec<u8> = msg.get_buf().to_vec();
+    // earlier unread traffic: filler bytes straight into the socket
+    pe.drain_all();
+    if sp.filler > 0 {
+        let junk = vec![0xEEu8; sp.filler];
+        let mut done = 0;
+        while done < junk.len() {
+            let n = unsafe { libc::send(cfd, junk[done..].as_ptr() as *const libc::c_void, junk.len() - done, libc::MSG_DONTWAIT) };
+            if n <= 0 {
+                break;
+            }
+            done += n as usize;
+        }
+    }
+    pe.base = pe.rx_total + pe.pending();
+    pe.got.clear();
+    pe.deliveries.clear();
+
+    let mut steps: Vec<String> = Vec::new();
+    let mut items: Vec<String> = Vec::new();
+    let mut viol: Vec<String> = Vec::new();
+    // one context exists at a time; the slot `ctx` is re-filled after into_progress/resume, which the
+    // borrow checker cannot see through a single variable: hand out the borrows from a raw pointer
+    let send_ptr: *mut rustbus::connection::ll_conn::SendConn = &mut conn.send;
+    let ctx0 = match unsafe { &mut *send_ptr }.send_message(&msg) {
+        Ok(c) => c,
+        Err(e) => {
+            out.violation("c10.run <build>", &format!("send_message refused a valid message: {:?}", e));
+            return;
+        }
+    };
+    let serial = ctx0.serial().get();
+    let mut hdr = Vec::new();
+    rustbus::wire::marshal::marshal(&msg, NonZeroU32::new(serial).unwrap(), &mut hdr).expect("marshal");
+    let total = hdr.len() + body.len();
+    if ctx0.bytes_total() != total {
+        viol.push(format!("bytes_total() = {} but header {} + body {}", ctx0.bytes_total(), hdr.len(), body.len()));
+    }
+    let mut ctx: Option<SendMessageContext> = Some(ctx0);
+    let mut sum_ret: usize = 0; // what the library claims
+    let mut eagains_in_row = 0;
+    let mut ncalls = 0usize;
+    let mut done_by_write: Option<u32> = None;
+    let mut extra_after_complete = if rng.chance(1, 2) { 1 } else { 0 };
+    let max_calls = 200_000;
+    let mut cut_kinds: Vec<&'static str> = Vec::new();
+    let mut lib_panic = false;
+    let mut stalled = false;
+    loop {
+        let c = ctx.as_ref().unwrap();
+        let complete = c.all_bytes_written();
+        if complete != (pe.kernel_sent() == total) {
+            viol.push(format!("all_bytes_written() = {} while the kernel holds {} of {} bytes", complete, pe.kernel_sent(), total));
+        }
+        if pe.kernel_sent() > total {
+            // more than the message went out: stop before a `write` can spin on an empty offer
+            viol.push(format!("the kernel holds {} bytes for a message of {} bytes", pe.kernel_sent(), total));
+            lib_panic = true;
+            break;
+        }
+        if stalled {
+            viol.push(format!("write_once returned Ok(0) with {} of {} bytes sent (write() would spin for ever)", pe.kernel_sent(), total));
+            lib_panic = true;
+            break;
+        }
+        if complete {
+            if extra_after_complete == 0 {
+                break;
+            }
+            extra_after_complete -= 1;
+        }
+        if let Some(n) = sp.abandon_after {
+            if ncalls >= n && !complete {
+                break;
+            }
+        }
+        if ncalls >= max_calls {
+            viol.push("step budget exhausted".into());
+            break;
+        }
+        // suspend / resume
+        if rng.below(4) < sp.suspend_num {
+            let c = ctx.take().unwrap();
+            let st = match guard(move || c.into_progress()) {
+                Ok(st) => st,
+                Err(p) => {
+                    viol.push(format!("into_progress panicked with {} of {} bytes sent: {}", pe.kernel_sent(), total, p));
+                    lib_panic = true;
+                    break;
+                }
+            };
+            let c2 = SendMessageContext::resume(unsafe { &mut *send_ptr }, &msg, st);
+            if c2.serial().get() != serial {
+                viol.push("serial changed across into_progress/resume".into());
+            }
+            ctx = Some(c2);
+            steps.push("s".into());
+            items.push("s".into());
+            out.hit("suspend_resume");
+        }
+        let before = pe.kernel_sent();
+        let hoff = before.min(hdr.len());
+        let boff = before - hoff;
+        ncalls += 1;
+        if rng.below(8) < sp.use_write {
+            // `write(Nonblock)`: loops write_once until complete or EAGAIN; with a 1 ns budget the clock
+            // (`calc_timeout_left`) normally ends it before the first write_once
+            let wt = if rng.chance(1, 8) { Timeout::Duration(Duration::from_nanos(1)) } else { Timeout::Nonblock };
+            let c = ctx.take().unwrap();
+            let r = match guard(move || c.write(wt)) {
+                Ok(r) => r,
+                Err(p) => {
+                    viol.push(format!("write panicked: {}", p));
+                    lib_panic = true;
+                    break;
+                }
+            };
+            let after = pe.kernel_sent();
+            let d = after - before.min(after);
+            match r {
+                Ok(s) => {
+                    steps.push(format!("W{}k", d));
+                    items.push(format!("W:done{}:{}:c", s.get(), after));
+                    done_by_write = Some(s.get());
+                    if after != total {
+                        viol.push(format!("write() reported completion with {} of {} bytes in the kernel", after, total));
+                    }
+                    out.hit("write_done");
+                    break;
+                }
+                Err((c, e)) => {
+                    let kind = res_of(&Err(e));
+                    steps.push(format!("W{}{}", d, kind));
+                    items.push(format!("W:{}:{}:{}", kind, after, if c.all_bytes_written() { "c" } else { "p" }));
+                    // (an error from a write() on an ALREADY complete context is legitimate: timeout first)
+                    if c.all_bytes_written() && before != total {
+                        viol.push("write() completed the message but returned an error".into());
+                    }
+                    ctx = Some(c);
+                    sum_ret += d;
+                    out.hit(&format!("write_err_{}", kind));
+                    eagains_in_row += 1;
+                }
+            }
+        } else {
+            let inject_fail = sp.fail_den > 0 && rng.chance(1, sp.fail_den);
+            let timeout = if inject_fail {
+                Timeout::Duration(Duration::ZERO)
+            } else if rng.chance(1, 16) {
+                Timeout::Duration(Duration::from_millis(1))
+            } else {
+                Timeout::Nonblock
+            };
+            let cm = ctx.as_mut().unwrap();
+            let r = match guard(|| cm.write_once(timeout)) {
+                Ok(r) => r,
+                Err(p) => {
+                    viol.push(format!("write_once panicked at {} of {} bytes: {}", before, total, p));
+                    lib_panic = true;
+                    break;
+                }
+            };
+            let after = pe.kernel_sent();
+            let kind = res_of(&r);
+            let c = ctx.as_ref().unwrap();
+            match &r {
+                Ok(n) => {
+                    sum_ret += n;
+                    steps.push(format!("a{}", n));
+                    eagains_in_row = 0;
+                    if after - before.min(after) != *n {
+                        viol.push(format!("write_once returned {} but the kernel took {} bytes", n, after as i64 - before as i64));
+                    }
+                    if *n > 0 && after < total {
+                        let k = if after < hdr.len() { "cut_in_header" } else if after == hdr.len() { "cut_at_seam" } else { "cut_in_body" };
+                        cut_kinds.push(k);
+                    }
+                    if *n == 0 {
+                        out.hit(if before == total { "zero_write_after_completion" } else { "zero_write_incomplete" });
+                        stalled = before != total;
+                    }
+                }
+                Err(_) => {
+                    steps.push(kind.clone());
+                    if after != before {
+                        viol.push(format!("write_once failed ({}) but the kernel took {} bytes", kind, after as i64 - before as i64));
+                    }
+                    if kind == "e" {
+                        eagains_in_row += 1;
+                        out.hit(if before == 0 { "eagain_first" } else { "eagain_later" });
+                    } else {
+                        out.hit("other_error");
+                    }
+                }
+            }
+            items.push(format!("h{}o{}:{}:{}:{}", hoff, boff, kind, after, if c.all_bytes_written() { "c" } else { "p" }));
+        }
+        if sum_ret != pe.kernel_sent() {
+            viol.push(format!("sum of returned counts {} != bytes the kernel holds {}", sum_ret, pe.kernel_sent()));
+        }
+        // the peer reads a chosen amount
+        let pend = pe.pending();
+        let want = if eagains_in_row >= 2 {
+            pend
+        } else {
+            match rng.below(6) {
+                0 => 0,
+                1 => rng.range(1, 64) as usize,
+                2 => rng.range(1, 4096) as usize,
+                3 => pend / 2,
+                _ => pend,
+            }
+        };
+        pe.read(want.min(pend));
+        if eagains_in_row >= 4 {
+            pe.drain_all();
+        }
+    }
+    if lib_panic {
+        // the context is gone or in an unknown state: never run its Drop
+        std::mem::forget(ctx.take());
+        steps.push("LIBPANIC".into());
+    }
+    // how the context ends
+    let end_kind = if sp.abandon_after.is_some() && rng.chance(1, 2) { EndKind::Drop } else { *rng.pick(&[EndKind::Drop, EndKind::Forget, EndKind::Progress, EndKind::Ffe]) };
+    let final_sent = pe.kernel_sent();
+    let mut end_tok = "none";
+    let mut end_obs = "ok".to_string();
+    let mut reported = done_by_write;
+    if let Some(c) = ctx.take() {
+        reported = Some(c.serial().get());
+        let partial = final_sent != 0 && final_sent != total;
+        let r = match end_kind {
+            EndKind::Drop => {
+                end_tok = "drop";
+                guard(move || drop(c))
+            }
+            EndKind::Forget => {
+                end_tok = "forget";
+                guard(move || c.force_finish())
+            }
+            EndKind::Progress => {
+                end_tok = "progress";
+                guard(move || {
+                    let _ = c.into_progress();
+                })
+            }
+            EndKind::Ffe => {
+                end_tok = "ffe";
+                guard(move || {
+                    let _ = force_finish_on_error((c, ()));
+                })
+            }
+        };
+        if r.is_err() {
+            end_obs = "panic".into();
+        }
+        out.hit(&format!("end_{}_{}", end_tok, if partial { "partial" } else if final_sent == 0 { "untouched" } else { "complete" }));
+        // direct: Drop panics exactly for a partially sent message, the consuming functions never
+        let should_panic = end_kind == EndKind::Drop && partial;
+        if r.is_err() != should_panic {
+            viol.push(format!("{} of a context with {} of {} bytes sent {}", end_tok, final_sent, total, if r.is_err() { "panicked" } else { "did not panic" }));
+        }
+    }
+    // everything the kernel took must arrive
+    pe.drain_all();
+    finish_checks(&mut viol, &msg, &hdr, &body, serial, reported, final_sent, total, pe, &b.fdids, files);
+
+    let fdids_s = if b.fdids.is_empty() { "-".to_string() } else { b.fdids.iter().map(|x| x.to_string()).collect::<Vec<_>>().join(",") };
+    let req = format!(
+        "c10.run {} {} {} {} {} {} {} {} {}",
+        hex(&hdr),
+        hex(&b.pre),
+        b.patlen,
+        b.seed,
+        hex(&b.post),
+        fdids_s,
+        serial,
+        if steps.is_empty() { "-".to_string() } else { steps.join(",") },
+        end_tok
+    );
+    let deliveries = if pe.deliveries.is_empty() {
+        "-".to_string()
+    } else {
+        pe.deliveries
+            .iter()
+            .map(|(pos, ids)| {
+                format!(
+                    "{}:{}",
+                    pos,
+                    ids.iter().map(|i| files.iter().position(|f| f.1 == *i).map(|p| p.to_string()).unwrap_or("?".into())).collect::<Vec<_>>().join(".")
+                )
+            })
+            .collect::<Vec<_>>()
+            .join(";")
+    };
+    let obs = format!(
+        "{} end={} sent={}/{} wire={}:{} fds={} serial={}",
+        if items.is_empty() { "-".to_string() } else { items.join(",") },
+        end_obs,
+        final_sent,
+        total,
+        pe.got.len(),
+        fnv32(&pe.got),
+        deliveries,
+        reported.unwrap_or(0)
+    );
+    let short_req = if req.len() > 400 { format!("{}...[{} steps, class {}]", &req[..60], steps.len(), sp.class) } else { req.clone() };
+    for v in viol {
+        out.violation(&short_req, &v);
+    }
+    cut_kinds.sort();
+    cut_kinds.dedup();
+    for k in cut_kinds {
+        out.hit(k);
+    }
+    out.hit(&format!("class_{}", sp.class));
+    out.hit(&format!("fds_{}", b.fdids.len()));
+    out.hit(if body.is_empty() { "header_only" } else if total < 4096 { "size_lt_4k" } else if total < 65536 { "size_lt_64k" } else if total < (1 << 20) { "size_lt_1m" } else { "size_ge_1m" });
+    out.hit_n("write_once_calls", ncalls as u64);
+    out.case(&req, &obs, ncalls >= 2 || !b.fdids.is_empty());
+}
+
+/// Direct evaluation of the property on what the peer saw.
+#[allow(clippy::too_many_arguments)]
+fn finish_checks(
+    viol: &mut Vec<String>,
+    msg: &MarshalledMessage,
+    hdr: &[u8],
+    body: &[u8],
+    serial: u32,
+    reported: Option<u32>,
+    final_sent: usize,
+    total: usize,
+    pe: &PeerEnd,
+    fdids: &[usize],
+    files: &[(RawFd, (u64, u64))],
+) {
+    let mut expect = hdr.to_vec();
+    expect.extend_from_slice(body);
+    // 1. bytes: exactly the first `final_sent` bytes of header ++ body, once, in order
+    if pe.got.len() != final_sent {
+        viol.push(format!("peer read {} bytes, the kernel had accepted {}", pe.got.len(), final_sent));
+    }
+    if pe.got.len() > expect.len() || pe.got[..] != expect[..pe.got.len()] {
+        let at = pe.got.iter().zip(expect.iter()).position(|(a, b)| a != b).unwrap_or(expect.len().min(pe.got.len()));
+        viol.push(format!(
+            "peer bytes differ from header++body at offset {} (header {} bytes, body {} bytes, peer got {} bytes)",
+            at,
+            hdr.len(),
+            body.len(),
+            pe.got.len()
+        ));
+    }
+    // 2. descriptors: never when nothing was accepted, exactly once (right files, right order, with the
+    //    first byte) as soon as one byte was accepted
+    let want_ids: Vec<(u64, u64)> = fdids.iter().map(|i| files[*i].1).collect();
+    if final_sent == 0 || want_ids.is_empty() {
+        if !pe.deliveries.is_empty() {
+            viol.push(format!("{} descriptor deliveries although {}", pe.deliveries.len(), if final_sent == 0 { "no byte was accepted" } else { "the message has no descriptors" }));
+        }
+    } else if pe.deliveries.len() != 1 {
+        viol.push(format!("descriptors delivered {} times (expected exactly once)", pe.deliveries.len()));
+    } else {
+        if pe.deliveries[0].1 != want_ids {
+            viol.push("delivered descriptors are not the message's descriptors in order".into());
+        }
+        if pe.deliveries[0].0 != 0 {
+            viol.push(format!("descriptors arrived at stream offset {} of the message, not with its first byte", pe.deliveries[0].0));
+        }
+    }
+    // 3. the serial: reported == chosen == bytes 8..12 of what the peer received
+    if reported != Some(serial) {
+        viol.push(format!("reported serial {:?}, send_message chose {}", reported, serial));
+    }
+    if let Some(p) = msg.dynheader.serial {
+        if p.get() != serial {
+            viol.push(format!("preset serial {} but {} was used", p.get(), serial));
+        }
+    }
+    if pe.got.len() >= 12 {
+        let on_wire = rd_u32(pe.got[0] == b'l', &pe.got[8..12]);
+        if on_wire != serial {
+            viol.push(format!("serial in the transmitted header is {}, reported {}", on_wire, serial));
+        }
+    }
+    // 4. a complete message is one well-formed frame that decodes to the message
+    if final_sent == total {
+        match peer::split_frames(&pe.got) {
+            Some(f) if f.len() == 1 => match peer::decode_frame(&f[0]) {
+                Ok(m) => {
+                    if m.get_buf() != body {
+                        viol.push("decoded body differs".into());
+                    }
+                    if m.dynheader.serial.map(|s| s.get()) != Some(serial)
+                        || m.dynheader.member != msg.dynheader.member
+                        || m.dynheader.object != msg.dynheader.object
+                        || m.dynheader.interface != msg.dynheader.interface
+                        || m.dynheader.destination != msg.dynheader.destination
+                    {
+                        viol.push("decoded header fields differ from the message".into());
+                    }
+                }
+                Err(e) => viol.push(format!("received frame does not decode: {}", e)),
+            },
+            _ => viol.push("received bytes are not exactly one frame".into()),
+        }
+    }
+}
+
+fn spec_for(rng: &mut Prng, thorough: bool, i: usize) -> Spec {
+    // header classes: the kernel cuts at multiples of unit = sndbuf - 64 (>= 2240)
+    let class = i % 10;
+    let mut sp = Spec {
+        sndbuf: 0,
+        filler: 0,
+        hdr_target: None,
+        patlen: 0,
+        nfds: rng.below(4) as usize,
+        with_array: true,
+        suspend_num: *rng.pick(&[0, 0, 1, 2, 4]),
+        fail_den: *rng.pick(&[0, 0, 8, 20]),
+        abandon_after: if rng.chance(1, 5) { Some(rng.range(0, 3) as usize) } else { None },
+        use_write: *rng.pick(&[0, 0, 0, 1, 3]),
+        preset: if rng.chance(1, 4) { Some(*rng.pick(&[1u32, 77, 0x01020304, u32::MAX])) } else { None },
+        class: "",
+    };
+    match class {
+        0 => {
+            // header only / tiny: one call
+            sp.class = "tiny";
+            sp.with_array = rng.chance(1, 2);
+            sp.patlen = rng.below(40) as usize;
+            if !sp.with_array && rng.chance(1, 2) {
+                sp.nfds = 0; // really header-only
+            }
+        }
+        1 => {
+            // tiny message behind unread traffic: EAGAIN before the first byte
+            sp.class = "tiny_behind_filler";
+            sp.patlen = rng.below(2000) as usize;
+            sp.filler = 10000;
+            sp.nfds = rng.range(1, 3) as usize;
+        }
+        2 => {
+            // cut inside a long header
+            sp.class = "cut_in_header";
+            // an empty queue takes two units at once: the header is longer than two (sometimes three) units
+            let unit = rng.range(2240, 3700) as usize;
+            let h = (unit * rng.range(2, 3) as usize + rng.range(1, 1500) as usize + 7) / 8 * 8;
+            sp.hdr_target = Some(h);
+            sp.sndbuf = unit as i32 + 64;
+            sp.patlen = *rng.pick(&[0usize, 5, 3000, 20000]);
+            sp.filler = if rng.chance(1, 3) { 3 * unit as usize } else { 0 };
+        }
+        3 => {
+            // cut exactly at the seam: header = one or two units
+            sp.class = "cut_at_seam";
+            let mult = rng.range(1, 2) as usize;
+            let unit = 8 * rng.range(280, 500) as usize;
+            sp.hdr_target = Some(unit * mult);
+            sp.sndbuf = unit as i32 + 64;
+            sp.patlen = *rng.pick(&[1usize, 100, 5000, 30000]);
+            // one unit: the queue must already hold one skb so that only one more is taken
+            sp.filler = if mult == 1 { unit } else { 0 };
+        }
+        4 | 5 => {
+            sp.class = "body_few_units";
+            sp.sndbuf = *rng.pick(&[0, 2304, 3000, 5000]);
+            sp.patlen = rng.range(2000, 40000) as usize;
+            sp.filler = if rng.chance(1, 3) { rng.range(1, 12000) as usize } else { 0 };
+        }
+        6 | 7 => {
+            sp.class = "body_many_units";
+            sp.sndbuf = *rng.pick(&[0, 4000, 9000, 20000]);
+            sp.patlen = rng.range(40000, 300000) as usize;
+            sp.filler = if rng.chance(1, 4) { rng.range(1, 30000) as usize } else { 0 };
+        }
+        8 => {
+            sp.class = "default_sndbuf";
+            sp.sndbuf = 106496; // the usual default (212992 effective)
+            sp.patlen = rng.range(100000, 700000) as usize;
+        }
+        _ => {
+            sp.class = "large";
+            if thorough && i % 50 == 9 {
+                // a few multi-MiB messages (the model walks the body list on every call)
+                sp.sndbuf = *rng.pick(&[16384, 65536, 106496]);
+                sp.patlen = rng.range(1 << 20, 6 << 20) as usize;
+                sp.suspend_num = *rng.pick(&[0, 1]);
+            } else {
+                sp.sndbuf = 65536;
+                sp.patlen = rng.range(300000, 1200000) as usize;
+            }
+        }
+    }
+    sp
+}
+
+/// `send_message`: the choice of the serial and the header it is marshalled into (model: `sendMessage`)
+fn start_case(out: &mut Out, rng: &mut Prng, files: &[(RawFd, (u64, u64))]) {
+    let (mut conn, server) = peer::connect_pair(true);
+    let mut pe = PeerEnd { s: server, rx_total: 0, base: 0, got: Vec::new(), deliveries: Vec::new() };
+    let mut counter: u64 = 1;
+    for _ in 0..rng.below(5) {
+        counter = conn.send.alloc_serial().get() as u64 + 1;
+    }
+    for _ in 0..4 {
+        let bo = if rng.chance(1, 2) { ByteOrder::LittleEndian } else { ByteOrder::BigEndian };
+        let mut msg = MarshalledMessage::with_byteorder(bo);
+        msg.typ = *rng.pick(&[rustbus::MessageType::Signal, rustbus::MessageType::Call]);
+        let bad = rng.chance(1, 5);
+        msg.dynheader.interface = Some(if bad { "not an interface".to_string() } else { "io.k.If".to_string() });
+        msg.dynheader.member = Some(rng.pick(&["Ping", "M", "LongerMemberName"]).to_string());
+        msg.dynheader.object = Some(rng.pick(&["/", "/o", "/a/bb/ccc"]).to_string());
+        if rng.chance(1, 2) {
+            msg.dynheader.destination = Some("org.x.Dest".into());
+        }
+        let mut nfds = 0;
+        match rng.below(3) {
+            0 => {}
+            1 => msg.body.push_param(rng.next() as u32).unwrap(),
+            _ => {
+                nfds = rng.range(1, 2) as usize;
+                for _ in 0..nfds {
+                    let ufd = UnixFd::new(nix::unistd::dup(files[0].0).unwrap());
+                    msg.body.push_param(&ufd).unwrap();
+                }
+            }
+        }
+        let preset = if rng.chance(1, 2) { Some(*rng.pick(&[1u32, 9, 0x00010000, 0x7fffffff, u32::MAX])) } else { None };
+        msg.dynheader.serial = preset.and_then(NonZeroU32::new);
+        let oh = |s: &Option<String>| s.as_ref().map(|x| hex(x.as_bytes())).unwrap_or("~".into());
+        let req = format!(
+            "c10.start {} {} {} {} {} ~ {} {} ~ {} {} ~ {} {} {}",
+            counter,
+            preset.map(|p| p.to_string()).unwrap_or("~".into()),
+            if bo == ByteOrder::LittleEndian { "le" } else { "be" },
+            if msg.typ == rustbus::MessageType::Call { 1 } else { 4 },
+            msg.flags,
+            oh(&msg.dynheader.interface),
+            oh(&msg.dynheader.destination),
+            oh(&msg.dynheader.member),
+            oh(&msg.dynheader.object),
+            hex(msg.get_sig().as_bytes()),
+            hex(msg.get_buf()),
+            nfds
+        );
+        pe.drain_all();
+        pe.base = pe.rx_total;
+        pe.got.clear();
+        pe.deliveries.clear();
+        let obs = match conn.send.send_message(&msg) {
+            Err(_) => {
+                out.hit("start_refused");
+                "refused".to_string()
+            }
+            Ok(ctx) => {
+                let s = ctx.serial().get();
+                match guard(move || ctx.write_all().map_err(force_finish_on_error)) {
+                    Ok(Ok(s2)) => {
+                        if s2.get() != s {
+                            out.violation(&req, &format!("serial() said {} but write_all returned {}", s, s2.get()));
+                        }
+                    }
+                    Ok(Err(e)) => out.violation(&req, &format!("write_all failed: {:?}", e)),
+                    Err(p) => out.violation(&req, &format!("write_all panicked: {}", p)),
+                }
+                pe.drain_all();
+                let hlen = pe.got.len().saturating_sub(msg.get_buf().len());
+                if pe.got.len() >= 12 {
+                    let on_wire = rd_u32(pe.got[0] == b'l', &pe.got[8..12]);
+                    if on_wire != s {
+                        out.violation(&req, &format!("reported serial {} but the transmitted header has {}", s, on_wire));
+                    }
+                } else {
+                    out.violation(&req, "less than 12 bytes arrived");
+                }
+                match preset {
+                    Some(p) if p != s => out.violation(&req, &format!("preset serial {} sent as {}", p, s)),
+                    None if s as u64 != counter => out.violation(&req, &format!("fresh serial {} but the counter was {}", s, counter)),
+                    _ => {}
+                }
+                out.hit(if preset.is_some() { "start_preset" } else { "start_fresh" });
+                format!("started serial={} hdr={}", s, hex(&pe.got[..hlen]))
+            }
+        };
+        let next = conn.send.alloc_serial().get() as u64;
+        out.case(&req, &format!("{} next={}", obs, next), true);
+        counter = next + 1;
+    }
+}
+
+/// blocking `write_all` from a helper thread against a slowly draining peer
+fn write_all_case(out: &mut Out, rng: &mut Prng, files: &[(RawFd, (u64, u64))], patlen: usize) {
+    let (mut conn, server) = peer::connect_pair(true);
+    let mut pe = PeerEnd { s: server, rx_total: 0, base: 0, got: Vec::new(), deliveries: Vec::new() };
+    sockopt_set(conn.send.as_raw_fd(), libc::SO_SNDBUF, *rng.pick(&[0, 5000, 30000]));
+    let nfds = rng.below(4) as usize;
+    let b = build(rng, files, None, patlen, nfds, true);
+    let msg = b.msg;
+    let body = msg.get_buf().to_vec();
+    let h = std::thread::spawn(move || {
+        let r = guard(|| conn.send.send_message_write_all(&msg));
+        (r, msg, conn)
+    });
+    // slow reader: small reads with pauses until the writer is done and the socket is empty
+    let mut idle = 0;
+    let mut last_progress = std::time::Instant::now();
+    let mut hung = false;
+    loop {
+        let pend = pe.pending();
+        if pend == 0 {
+            if h.is_finished() {
+                idle += 1;
+                if idle > 2 {
+                    break;
+                }
+            } else if last_progress.elapsed() > Duration::from_secs(10) {
+                hung = true;
+                break;
+            }
+            std::thread::sleep(Duration::from_micros(200));
+            continue;
+        }
+        last_progress = std::time::Instant::now();
+        let want = match rng.below(4) {
+            0 => rng.range(1, 500) as usize,
+            1 => rng.range(500, 5000) as usize,
+            _ => pend,
+        };
+        pe.read(want);
+        if rng.chance(1, 50) {
+            std::thread::sleep(Duration::from_micros(300));
+        }
+    }
+    if hung {
+        // the writer thread is left behind (it dies with the process)
+        out.violation(&format!("c10.run <write_all of a {}-byte pattern, {} fds>", patlen, nfds), "send_message_write_all did not return although the peer read everything it was sent");
+        out.hit("blocking_write_all_hung");
+        return;
+    }
+    let (r, msg, _conn) = h.join().unwrap();
+    pe.drain_all();
+    let mut viol = Vec::new();
+    let serial = match r {
+        Ok(Ok(s)) => s.get(),
+        Ok(Err(e)) => {
+            viol.push(format!("send_message_write_all failed: {:?}", e));
+            0
+        }
+        Err(p) => {
+            viol.push(format!("send_message_write_all panicked: {}", p));
+            0
+        }
+    };
+    let mut hdr = Vec::new();
+    if serial != 0 {
+        rustbus::wire::marshal::marshal(&msg, NonZeroU32::new(serial).unwrap(), &mut hdr).unwrap();
+    }
+    let total = hdr.len() + body.len();
+    finish_checks(&mut viol, &msg, &hdr, &body, serial, Some(serial), total, total, &pe, &b.fdids, files);
+    let fdids_s = if b.fdids.is_empty() { "-".to_string() } else { b.fdids.iter().map(|x| x.to_string()).collect::<Vec<_>>().join(",") };
+    let req = format!("c10.run {} {} {} {} {} {} {} W{}k none", hex(&hdr), hex(&b.pre), b.patlen, b.seed, hex(&b.post), fdids_s, serial, total);
+    let deliveries = if pe.deliveries.is_empty() {
+        "-".to_string()
+    } else {
+        pe.deliveries
+            .iter()
+            .map(|(pos, ids)| format!("{}:{}", pos, ids.iter().map(|i| files.iter().position(|f| f.1 == *i).map(|p| p.to_string()).unwrap_or("?".into())).collect::<Vec<_>>().join(".")))
+            .collect::<Vec<_>>()
+            .join(";")
+    };
+    let obs = format!("W:done{}:{}:c end=ok sent={}/{} wire={}:{} fds={} serial={}", serial, total, pe.got.len(), total, pe.got.len(), fnv32(&pe.got), deliveries, serial);
+    let short = format!("c10.run <write_all of {} bytes, {} fds>", total, nfds);
+    for v in viol {
+        out.violation(&short, &v);
+    }
+    out.hit("blocking_write_all");
+    out.case(&req, &obs, true);
+}
 
 pub fn run(cfg: &Cfg) {
-    let out = Out::new(&cfg.outdir);
-    out.finish("stub", false);
+    std::panic::set_hook(Box::new(|_| {}));
+    let mut out = Out::new(&cfg.outdir);
+    let mut rng = Prng::new(cfg.seed);
+    // a library call that never returns (e.g. `write` spinning on zero-byte writes) must not hang the check
+    let limit = if cfg.thorough { 1500 } else { 400 };
+    std::thread::spawn(move || {
+        std::thread::sleep(Duration::from_secs(limit));
+        eprintln!("C10 engine: watchdog expired, a library call did not return");
+        std::process::exit(3);
+    });
+    let files = make_files(4);
+    let n = if cfg.thorough { 600 } else { 120 };
+    let mut pair: Option<(DuplexConn, PeerEnd)> = None;
+    for i in 0..n {
+        let sp = spec_for(&mut rng, cfg.thorough, i);
+        // a fresh connection after an abandoned (partially sent) message, else reuse for a few messages
+        if pair.is_none() || rng.chance(1, 4) {
+            let (conn, server) = peer::connect_pair(true);
+            pair = Some((conn, PeerEnd { s: server, rx_total: 0, base: 0, got: Vec::new(), deliveries: Vec::new() }));
+            out.hit("connections");
+        }
+        let (conn, pe) = pair.as_mut().unwrap();
+        scenario(&mut out, &mut rng, conn, pe, &files, &sp);
+    }
+    let starts = if cfg.thorough { 60 } else { 12 };
+    for _ in 0..starts {
+        start_case(&mut out, &mut rng, &files);
+    }
+    let wa: &[usize] = if cfg.thorough { &[0, 3000, 200000, 1 << 20, 3 << 20, 5 << 20] } else { &[0, 50000, 400000] };
+    for p in wa {
+        write_all_case(&mut out, &mut rng, &files, *p);
+    }
+    out.finish(
+        "real DuplexConn to an in-process peer, client SO_SNDBUF 4608..212992 (kernel cuts at multiples of sndbuf/2-64), optional filler bytes queued before the message (EAGAIN before the first byte); classes: header-only/tiny, tiny behind filler, header 2.4-7 KiB with the cut inside it, header = 1 or 2 kernel units (cut exactly at the seam), bodies of a few / many units, default sndbuf, large (quick: <=1.2 MiB, thorough: 1-6 MiB); 0-3 real descriptors (memfds, fstat identity) before or after the byte array; per step randomly: write_once(Nonblock | 1 ms | the failing Duration(0)), write(Nonblock), into_progress+resume; the peer reads 0 / few / half / all pending bytes between calls; optional write_once after completion; optional abandonment after 0-4 calls; end by drop / force_finish / into_progress / force_finish_on_error; plus send_message cases (serial choice + header) and blocking send_message_write_all from a thread against a slow reader; distinct by request (header, body, observed event list); non-trivial = at least two calls or descriptors attached",
+        false,
+    );
 }
